@@ -27,15 +27,19 @@ Reset ==
   /\ cfgr' = [period |-> Cur.period_us, burst |-> Cur.burst, mode |-> Cur.mode, per_key |-> Cur.per_key]
   /\ adm' = <<>>
 
-(* the sound window bound against every earlier admission of the same key *)
+(* The sound window bound.  Lines arrive in hi order, so every admission seen *)
+(* so far has hi <= Cur.hi; those with lo >= x were all decided inside       *)
+(* [x, Cur.hi], whatever the order of the decisions, hence                   *)
+(*     #{k : lo_k >= x} <= B + (Cur.hi - x) \div T     for every x = lo_i.    *)
 Admit ==
   /\ l <= Len(Rec) /\ Cur.ev = "admit" /\ l' = l + 1
-  /\ LET s == IF Cur.key \in DOMAIN adm THEN adm[Cur.key] ELSE <<>>
-         j == Len(s) + 1
+  /\ LET s0 == IF Cur.key \in DOMAIN adm THEN adm[Cur.key] ELSE <<>>
+         s == Append(s0, [lo |-> Cur.lo, hi |-> Cur.hi])
      IN
-     /\ \A i \in 1..Len(s) :
-           Cur.hi - s[i].lo >= (j - i + 1 - cfgr.burst) * cfgr.period
-     /\ adm' = With(adm, Cur.key, Append(s, [lo |-> Cur.lo, hi |-> Cur.hi]))
+     /\ \A i \in DOMAIN s :
+           Cardinality({k \in DOMAIN s : s[k].lo >= s[i].lo})
+             <= cfgr.burst + ((Cur.hi - s[i].lo) \div cfgr.period)
+     /\ adm' = With(adm, Cur.key, s)
   /\ UNCHANGED cfgr
 
 End ==
